@@ -192,6 +192,44 @@ func checkC01(c *Ctx, r *Report) {
 			}
 			ok = true
 		}
+		if !ok {
+			// the bytes come from a helper that returns them only after verifying them
+			// under the name it was given ("verified-bytes wrapper")
+			if ex, isEx := data.(*ssa.Extract); isEx {
+				if wc, isC := ex.Tuple.(*ssa.Call); isC {
+					w := wc.Common().StaticCallee()
+					if w != nil && w.Pkg == fn.Pkg && len(w.Blocks) > 0 && inSuccessRegion(wc, cs.Instr) {
+						// which parameter of w receives the name?
+						all, n := true, 0
+						for _, ret := range returnsOf(w) {
+							if classifyReturn(ret) == RetFailure || ex.Index >= len(ret.Results) {
+								continue
+							}
+							n++
+							d := unspill(ret.Results[ex.Index])
+							verified := false
+							for _, vf := range callsInNamed(w, fnVerify) {
+								va := vf.Instr.Common().Args
+								if !inSuccessRegion(vf.Instr, ret) || !mentions(va[1], func(v ssa.Value) bool { return v == d }, 6) {
+									continue
+								}
+								for i, prm := range w.Params {
+									if va[2] == ssa.Value(prm) && i < len(wc.Common().Args) && sameName(wc.Common().Args[i], name) {
+										verified = true
+									}
+								}
+							}
+							if !verified {
+								all = false
+							}
+						}
+						if all && n > 0 {
+							ok = true
+						}
+					}
+				}
+			}
+		}
 		r.Check(ok, r1, fn, "BlobMemoryCache.Add", cs.Instr, "verified same bytes, same name", "bytes are published in the memory cache (served to readers before the drain) without a successful digest verification: "+why)
 		// metainfo of the entry computed from the same name and bytes
 		r4 := r.Rule("R4", "E-ORDER+identity", "every torrent metainfo stored or published for a name was computed by core.NewMetaInfo* from the content and the digest of that same name (or is the metainfo of the memory entry being drained)", 4)
